@@ -366,7 +366,7 @@ GenAnnKeySeq == <<"k1", "k2">>
 GenBadKeys == {"bad"}
 GenPatterns == %s
 ====
-`, pick(r, 2, 3), 3, tlaSeqOfChars([]string{"/a", "a.b/{x}", "/", "{h}.b/a/*{w}/c", "/a{x}/b{y}", "a.b/", "/a/{x}/", "ab.{h}.c/{x}/{y}/*{z}", "/*{w}", "noslash", "/a{"}))
+`, pick(r, 2, 3), pick(r, 3, 4), tlaSeqOfChars([]string{"/a", "a.b/{x}", "/", "{h}.b/a/*{w}/c", "/a{x}/b{y}", "a.b/", "/a/{x}/", "ab.{h}.c/{x}/{y}/*{z}", "/*{w}", "noslash", "/a{"}))
 	var vecs, evals atomic.Int64
 	ch := make(chan optVec, 16)
 	var wg sync.WaitGroup
@@ -559,12 +559,16 @@ func replayLogVec(r *Run, v logVec, evals *atomic.Int64) {
 func checkC20(r *Run) {
 	statuses := []int{200, 204, 299, 300, 301, 308, 399, 400, 404, 499, 500, 503, 599, 101}
 	if !r.quick() {
-		for s := 200; s < 600; s += 7 {
+		for s := 100; s < 600; s++ {
 			statuses = append(statuses, s)
 		}
 	}
 	var did []string
 	for _, s := range statuses {
+		if s >= 100 && s <= 199 && s != 101 {
+			did = append(did, fmt.Sprintf(`<<"info", %d>>`, s)) // an informational header is not a final status
+			continue
+		}
 		did = append(did, fmt.Sprintf(`<<"status", %d>>`, s))
 	}
 	did = append(did, `<<"body">>`, `<<"nothing">>`, `<<"info", 103>>`)
